@@ -219,7 +219,9 @@ func refEncode(m any) (obj any, out []byte, ok bool) {
 	if r.Err != nil || r.Panic != nil {
 		return obj, nil, false
 	}
-	return obj, b.Bytes(), true
+	out = cloneBytes(b.Bytes())
+	recycleBuf(&b) // scratch buffers of the harness are pooled: what the library kept of this one is junk now
+	return obj, out, true
 }
 
 // jumboFrame builds an SZSE frame whose body carries one 4-byte-prefixed text of n 0xFF bytes
